@@ -123,7 +123,7 @@ class StrPred:
                 if isinstance(a, str) and isinstance(b, str):
                     return (a == b) == (name == "eq")
                 return None
-            if name in ("iter", "into_iter", "copied", "cloned", "as_ref", "as_str", "deref", "borrow", "to_string", "to_owned", "clone", "into", "as_slice", "to_vec", "from") and len(args) == 1:
+            if name in ("iter", "into_iter", "copied", "cloned", "as_ref", "as_str", "deref", "borrow", "to_string", "to_owned", "clone", "into", "as_slice", "to_vec", "from", "from_iter", "collect") and len(args) == 1:
                 return self.ev(args[0], env, depth + 1)
             if name in ("contains", "starts_with", "ends_with") and len(args) == 2:
                 recv, x = self.ev(args[0], env, depth + 1), self.ev(args[1], env, depth + 1)
